@@ -308,14 +308,18 @@ STRUCT_ATTRS = ['pressureProfile', 'temperatureProfile', 'densityProfile', 'alti
                 'scaleheight_profile', 'deltaz', 'altitude_boundaries']
 
 
-def hist_build(case):
-    from mc import fixtures as fx
+def hist_build(case, net=None):
+    from mc import fixtures as fx, rthist
     from taurex.cache import OpacityCache
     fx.reset_caches()
     OpacityCache().add_opacity(fx.TinyOp('H2O', fx.WN_GRIDS[4], fx.T_GRIDS[3], fx.P_GRIDS[3],
                                          fx.table(3, 3, 4, 1e-27, salt=('c11', 'H2O'))))
-    return fx.build_model({'kind': case['kind'], 'N': case['N'], 'T': ['iso', 1200.0],
-                           'gases': [['H2O', ['const', 1e-4]]], 'contribs': ['abs'], 'ngauss': 2})
+    spec = {'kind': case['kind'], 'N': case['N'], 'T': ['iso', 1200.0],
+                           'gases': [['H2O', ['const', 1e-4]]], 'contribs': ['abs'], 'ngauss': 2}
+    if net is not None:
+        spec, rest = rthist.spec_with_net(spec, net)
+        return fx.build_model(spec), rest
+    return fx.build_model(spec)
 
 
 def _struct_eval(r, live, fresh, sig):
@@ -339,7 +343,8 @@ def _struct_eval(r, live, fresh, sig):
 def hist_fn(case):
     from mc import rthist
     r = core.R(case)
-    rthist.run_history(r, case['hist'], lambda: hist_build(case), 'structure/' + case['kind'], extra_eval=_struct_eval, as_numpy=bool(case.get('np')), entry=case.get('entry', 'model'))
+    rthist.run_history(r, case['hist'], lambda: hist_build(case), 'structure/' + case['kind'], extra_eval=_struct_eval, build_with=lambda net: hist_build(case, net), as_numpy=bool(case.get('np')),
+                       entry=case.get('entry', 'model'))
     return r
 
 
